@@ -163,6 +163,55 @@ func C17Runtime(r *core.Report, tier string) {
 		}
 		rs.m1, rs.m2, rs.m3, rs.grows = Growth(c.ProbeAt, c.ProbeDepth, total)
 	})
+	// nested runtime loops: the inner loop completes a few iterations synchronously inside every
+	// iteration of the outer one
+	nested := 0
+	for _, outer := range forms {
+		for _, inner := range forms {
+			for _, innerIters := range []int{1, 2} {
+				c := rt.New(nil, 1<<40, -1)
+				it := 0
+				cond := func() bool { c.Probe(); it++; return it <= n }
+				mkInner := func() seq.Seq[int] {
+					j := 0
+					icond := func() bool { j++; return j <= innerIters }
+					ibody := seq.Delay[int](func() seq.Seq[int] { c.Probe(); return seq.Normal[int]() })
+					switch inner {
+					case "While":
+						return seq.While[int](icond, ibody)
+					case "For":
+						return seq.For[int](icond, func() {}, ibody)
+					}
+					return seq.Loop[int](seq.Combine[int](seq.Delay[int](func() seq.Seq[int] {
+						if !icond() {
+							return seq.Break[int]()
+						}
+						return seq.Normal[int]()
+					}), ibody))
+				}
+				body := seq.Delay[int](func() seq.Seq[int] { return mkInner() })
+				g := seq.Start(seq.Combine[int](wrapHead(outer, seq.Normal[int](), nil, cond, body), seq.Bind[int](1, seq.Normal[int])))
+				for g.MoveNext() {
+				}
+				total := 0
+				if len(c.ProbeAt) > 0 {
+					total = c.ProbeAt[len(c.ProbeAt)-1]
+				}
+				m1, m2, m3, grows := Growth(c.ProbeAt, c.ProbeDepth, total)
+				nested++
+				r.Add("states", 1)
+				r.Add("transitions", total)
+				r.Add("traces_validated_against_impl", 1)
+				if grows {
+					r.Fail(core.Failure{Key: fmt.Sprintf("seq:%s(%s x%d)", outer, inner, innerIters), Kind: "stack-growth",
+						Detail: "stack depth grows with the number of non-yielding iterations",
+						What:   "nested runtime loops: the depth inside the loops is not bounded independently of the outer iteration count",
+						Replay: map[string]any{"iterations": n, "max_depth_first_quarter": m1, "second_quarter": m2, "second_half": m3}})
+				}
+			}
+		}
+	}
+	r.Set("runtime_level_nested_loop_pairs", nested)
 	for i, rs := range results {
 		r.Add("states", 1)
 		r.Add("transitions", n)
